@@ -108,7 +108,7 @@ var aWeights = map[string]map[string]int{
 	"C02": {"honest": 6, "fork": 8, "dupcreate": 4, "unpub": 3, "replay": 1},
 	"C03": {"honest": 8, "fork": 4, "baddelta": 6, "window": 3, "loop": 3, "replay": 3, "dupcreate": 1, "unauth": 2},
 	"C04": {"honest": 8, "deactivate": 4, "recover": 4, "fork": 3, "stale": 4, "replay": 3, "unauth": 2, "dupcreate": 2},
-	"C05": {"honest": 4, "window": 12, "fork": 1},
+	"C05": {"unpub": 2, "honest": 4, "window": 12, "fork": 1},
 	"C06": {"honest": 8, "fork": 3, "baddelta": 2, "unauth": 2, "replay": 2, "dupcreate": 1, "window": 2, "unpub": 2},
 	"C12": {"unpub": 2, "honest": 6, "loop": 10, "fork": 2, "replay": 2},
 }
@@ -1412,15 +1412,26 @@ func (w *aWorld) addUnpublished(st *refmodel.State) {
 		p.typ, p.key, p.nextRec = operation.TypeRecover, w.byCommit[st.RecoveryC], w.newKey("rec")
 	}
 
+	// the pending operation is stamped with the node's clock, which may lag behind the ledger's (the stamp is then earlier
+	// than the anchoring time of the operation it builds on); it may declare an anchoring window around its stamp
+	stamp := w.now
+	if lag := uint64(T.Draw(4, "unpub.lag")) * 7; lag < stamp && T.Draw(3, "unpub.lagging") == 0 {
+		stamp -= lag
+	}
+
+	if w.prop == "C05" || T.Draw(4, "unpub.windowed") == 0 {
+		p.from, p.until = w.window(stamp)
+	}
+
 	req, m := w.build(p)
 	m.ID = w.nextID
 	w.nextID++
-	m.Time = w.now
+	m.Time = stamp
 	m.Number = 0
 	m.Published = false
 	m.MaxDelta = int64(w.version().P.MaxOperationTimeDelta)
 
-	a := &operation.AnchoredOperation{Type: p.typ, UniqueSuffix: w.suffix, OperationRequest: req, TransactionTime: w.now, ProtocolVersion: w.version().P.GenesisTime}
+	a := &operation.AnchoredOperation{Type: p.typ, UniqueSuffix: w.suffix, OperationRequest: req, TransactionTime: stamp, ProtocolVersion: w.version().P.GenesisTime}
 	if m.Origin != "" {
 		a.AnchorOrigin = m.Origin
 	}
@@ -1437,14 +1448,21 @@ func (w *aWorld) addUnpublished(st *refmodel.State) {
 func (w *aWorld) publishUnpublished() {
 	u := w.unpubOp
 	w.unpubOp = nil
-	_ = w.unpub.Delete(u.A)
 
-	// remove the unpublished descriptor and anchor the same request
-	for i, o := range w.ops {
-		if o == u {
-			w.ops = append(w.ops[:i:i], w.ops[i+1:]...)
+	// normally the pending copy is removed when the operation is anchored; now and then the clean-up lags (or failed) and
+	// the stale copy stays in the unpublished store next to its anchored twin
+	if w.prop == "C02" && u.M.Type != refmodel.Create && w.k.T.Draw(3, "unpub.stale-copy") == 0 {
+		w.k.Count("probe:stale-unpublished-copy-next-to-anchored-twin")
+	} else {
+		_ = w.unpub.Delete(u.A)
 
-			break
+		// remove the unpublished descriptor and anchor the same request
+		for i, o := range w.ops {
+			if o == u {
+				w.ops = append(w.ops[:i:i], w.ops[i+1:]...)
+
+				break
+			}
 		}
 	}
 
@@ -1749,6 +1767,49 @@ func (w *aWorld) oraclePermutations(rm *protocol.ResolutionModel, err error) {
 			w.fail("C02", "metadata/order-dependence", fmt.Sprintf("two store orders give different operation lists in the transformed metadata after %d events", len(w.ops)))
 
 			return
+		}
+	}
+
+	// part of the anchored history may reach the resolver through the additional-operations option (operations the node
+	// has received but not stored yet) instead of the store - with the unpublished store as it is, which may still hold the
+	// pending copy of one of them: the result is the same function of the same set of anchored operations
+	var pub []*aOp
+
+	for _, o := range w.ops {
+		if o.M.Published {
+			pub = append(pub, o)
+		}
+	}
+
+	if len(pub) >= 2 && w.k.T.Draw(2, "perm.additional") == 0 {
+		tmp := simenv.NewOpStore(w.k, "")
+		tmp.Permute = w.permute
+
+		var extra []*operation.AnchoredOperation
+
+		for i, o := range pub {
+			c := *o.A
+			if i > 0 && w.k.T.Draw(3, "perm.additional.pick") == 0 {
+				extra = append(extra, &c)
+			} else {
+				tmp.Insert(&c)
+			}
+		}
+
+		for i := len(extra) - 1; i > 0; i-- {
+			j := w.k.T.Draw(i+1, "perm.additional.perm")
+			extra[i], extra[j] = extra[j], extra[i]
+		}
+
+		if len(extra) > 0 {
+			w.k.Count("probe:history-partly-as-additional-operations")
+
+			rm4, err4 := w.resolve(processor.New("split", tmp, w.pc, processor.WithUnpublishedOperationStore(w.unpub)), document.WithAdditionalOperations(extra))
+			if d := dump(rm4, err4, true); d != base {
+				w.fail("C02", "additional-operations", fmt.Sprintf("supplying %d of the %d anchored operations through the additional-operations option instead of the store changes the result:\n store only: %s\n split:      %s", len(extra), len(pub), base, d))
+
+				return
+			}
 		}
 	}
 
